@@ -25,7 +25,7 @@ RULE = (
     "resynchronising read; distinct = distinct canonical JSON of the whole case."
 )
 ASSUMPTIONS = [
-    "supply finite and >= 0; granularity finite; all limits are ints or dyadic rationals so float arithmetic is exact",
+    "supply finite and >= 0, or infinite where no backlog limit is configured (with one, the unchanged code computes an infinite lower limit and fails on int demands); granularity finite; all limits are ints or dyadic rationals so float arithmetic is exact",
     "for the default granularity 1 and fractional demands both clamp(v) and clamp(floor(v)) are accepted for the target",
     "for an int demand limited by a fractional limit any in-range value less than 1 away from the limit is accepted",
     "where the float subtraction abs(readback - target.demand) is inexact and rounds across the granularity, both outcomes of the comparison are accepted (IEEE rounding, e.g. writing -5e-324 with granularity 2)",
@@ -75,6 +75,7 @@ def op():
         st.tuples(st.just("r")),
         st.tuples(st.just("inc"), st.integers(1, 12)),
         st.tuples(st.just("sup"), st.one_of(st.integers(0, 400), dyadic(0, 400))),
+        st.tuples(st.just("sup"), st.just(INF)),  # a pool without an upper bound of resources (used only without a backlog limit)
         st.tuples(st.just("out"), st.sampled_from(["<g", "=g", ">g", "tiny"]), st.sampled_from([1, -1])),
         st.tuples(st.just("pt"), dyadic(0, 400), dyadic(0, 2, 4), dyadic(0, 2, 4)),
     )
@@ -97,9 +98,9 @@ def resolve(vs, p, supply):
         val = p["min"]
     elif base == "max" and p["max"] != INF:
         val = p["max"]
-    elif base == "lo" and p["backlog"] != INF:
+    elif base == "lo" and p["backlog"] != INF and supply != INF:
         val = supply - p["backlog"]
-    elif base == "hi" and p["surplus"] != INF:
+    elif base == "hi" and p["surplus"] != INF and supply != INF:
         val = supply + p["surplus"]
     elif base == "mult":
         xx = x if abs(x) < 1e6 else math.fmod(x, 1e6)
@@ -147,6 +148,9 @@ class Model:
         self.surplus, self.backlog = frac(p["surplus"]), frac(p["backlog"])
 
     def window(self, supply):
+        if supply == INF:
+            # only generated with backlog == INF: inf - inf and inf + surplus put no finite limit on the demand
+            return -INF, INF
         s = Fraction(supply)
         lo = -INF if self.backlog == INF else s - self.backlog
         hi = INF if self.surplus == INF else s + self.surplus
@@ -289,7 +293,8 @@ def run_history(p) -> Result:
                     res.cls("read:stable")
                 prevR = cur
             elif kind == "sup":
-                pool.supply = o[1]
+                # an infinite supply only where no backlog limit would turn it into an infinite lower limit
+                pool.supply = o[1] if o[1] != INF or p["backlog"] == INF else 400
             elif kind == "out":
                 gf = float(g)
                 delta = {"<g": gf - 0.125 if gf > 0.125 else gf / 2, "=g": gf, ">g": gf + 1, "tiny": 0.125}[o[1]] * o[2]
